@@ -23,7 +23,8 @@ RULE = ('cases are one key shape (primary + 0-3 subkeys, 1-2 identities with the
 TIERS = {'quick': {'runs': 4000, 'budget_s': 80}, 'thorough': {'runs': 200000, 'budget_s': 1500}}
 PROBES = ('subkey_used', 'primary_used', 'nobody_allowed_enforced', 'nobody_allowed_not_enforced', 'rebinding_changed_capability',
           'recertify_changed_capability', 'same_second_rebinding', 'form_public', 'form_locked', 'form_unlocked', 'form_unprotected',
-          'no_identity_key', 'user_selected_identity', 'two_capable_subkeys', 'decrypt_by_subkey', 'encrypt_on_private_refused')
+          'no_identity_key', 'user_selected_identity', 'two_capable_subkeys', 'decrypt_by_subkey', 'encrypt_on_private_refused',
+          'decrypt_stored_message', 'decrypt_stored_after_capability_lost')
 SIGN_ALGS = ['ed25519', 'ed25519', 'p256', 'p384']
 FLAGSETS = ['', 'C', 'S', 'CS', 'E', 'ET', 'A', 'SA', 'CSE', 'T']
 
@@ -45,7 +46,7 @@ def generate(rng, tier):
         r = rng.random()
         if r < 0.15 and subs:
             j = rng.randrange(len(subs))
-            u = rng.choice(['S', 'A', 'SA']) if world.can_sign(subs[j]['alg']) else rng.choice(['E', 'T', 'ET'])
+            u = rng.choice(['S', 'A', 'SA']) if world.can_sign(subs[j]['alg']) else rng.choice(['E', 'T', 'ET', 'A'])
             steps.append({'id': sid, 'op': 'rebind', 'sub': j, 'usage': u})
         elif r < 0.27:
             steps.append({'id': sid, 'op': 'recertify', 'uid': rng.randrange(len(uids)), 'usage': rng.choice(['C', 'CS', 'S', 'CA', 'CSE' if palg.startswith('rsa') else 'CS'])})
@@ -55,7 +56,7 @@ def generate(rng, tier):
             steps.append({'id': sid, 'op': rng.choice(['sign', 'sign', 'certify', 'encrypt', 'encrypt', 'decrypt']),
                           'form': rng.choice(['unprotected', 'unprotected', 'unlocked', 'locked', 'public']),
                           'user': rng.randrange(len(uids)) if rng.random() < 0.35 else None,
-                          'enforce': rng.random() < 0.75})
+                          'enforce': rng.random() < 0.75, 'stored': rng.randrange(8) if rng.random() < 0.6 else None})
     return {'config': {'primary': palg, 'uids': uids, 'subs': subs, 'no_identity': rng.random() < 0.06,
                        'start_us': 1_600_000_000_000_000}, 'steps': steps}
 
@@ -272,7 +273,24 @@ def _operate(pgpy, ctx, m, cfg, key, obj, form, passphrase, step, shapes):
         if op in ('encrypt', 'decrypt'):
             allowed = _allowed(m, cfg, 'ET', user)
             allowed = [a for a in allowed if comps[a].alg in (rkeys.ECDH, rkeys.RSA_ES)]
-            pubobj = obj if form == 'public' else None
+            if op == 'decrypt' and form in ('unprotected', 'unlocked') and step.get('stored') is not None and getattr(m, 'mailbox', None):
+                # a message encrypted earlier in the history, to whichever component was allowed then: the flags may have
+                # changed since, the addressed component is still the one that opens it
+                sbytes, sused = m.mailbox[step['stored'] % len(m.mailbox)]
+                ctx.checked()
+                ctx.probe('decrypt_stored_message')
+                if sused is not None and sused not in allowed:
+                    ctx.probe('decrypt_stored_after_capability_lost')
+                try:
+                    with (obj.unlock(passphrase) if form == 'unlocked' else _null()):
+                        sdec = obj.decrypt(pgpy.PGPMessage.from_blob(sbytes))
+                    sgot = sdec.message
+                except Exception as e:
+                    ctx.viol('C16:addressed-component-cannot-decrypt:stored:%s' % type(e).__name__,
+                             'the key cannot decrypt an earlier message addressed to its %s: %s' % ('primary' if sused == -1 else 'subkey', e))
+                    sgot = None
+                if sgot is not None and (sgot.encode() if isinstance(sgot, str) else bytes(sgot)) != b'usage policy':
+                    ctx.viol('C16:decrypt-wrong-content', 'decryption of an earlier message returns other content')
             if op == 'encrypt' and form != 'public':
                 ctx.checked()
                 try:
@@ -298,10 +316,11 @@ def _operate(pgpy, ctx, m, cfg, key, obj, form, passphrase, step, shapes):
                     ctx.probe('nobody_allowed_enforced')
                     if raised is None:
                         ctx.viol('C16:no-capable-component-but-encrypt', 'encrypt() succeeded although no component may encrypt and enforcement is on')
-                else:
-                    ctx.probe('nobody_allowed_not_enforced')
-                return
-            if raised is not None:
+                    return
+                ctx.probe('nobody_allowed_not_enforced')
+                if enc is None or op != 'decrypt':
+                    return
+            elif raised is not None:
                 ctx.viol('C16:capable-component-refused:encrypt:%s' % type(raised).__name__,
                          'encrypt() raised (%s) although component(s) %s may encrypt' % (raised, allowed))
             used = None
@@ -311,7 +330,11 @@ def _operate(pgpy, ctx, m, cfg, key, obj, form, passphrase, step, shapes):
                     used = by_keyid.get(pk.keyid)
                     if used is None:
                         ctx.viol('C16:recipient-id-unknown', 'the session-key packet names a key id that is no component of the key')
-            if used is not None and used not in allowed:
+            if used is not None and enc is not None:
+                if not hasattr(m, 'mailbox'):
+                    m.mailbox = []
+                m.mailbox.append((bytes(enc), used))
+            if used is not None and allowed and used not in allowed:
                 ctx.viol('C16:used-component-lacks-capability:encrypt',
                          'encrypt() used %s, whose most recent self-signature does not grant an encryption capability (allowed: %s, enforcement %s)'
                          % ('the primary key' if used == -1 else 'subkey %d' % used, allowed, 'on' if step.get('enforce', True) else 'off'))
